@@ -11,7 +11,7 @@ import (
 )
 
 var c07Floor = []string{"cte.1", "cte.chain2", "cte.chain3", "cte.twice.join", "cte.twice.union", "cte.twice.insub", "cte.selector", "derived", "derived.where",
-	"subq.nested", "subq.root", "subq.in", "subq.agg", "exists", "exists.outer", "subq.root-correlated", "derived.join", "inner.agg", "inner.order", "inner.filter"}
+	"subq.nested", "subq.root", "subq.in", "subq.agg", "exists", "exists.outer", "subq.root-correlated", "derived.join", "subq.with", "agg.stages", "inner.agg", "inner.order", "inner.filter"}
 
 func init() {
 	fw.Register(&fw.Prop{
@@ -216,9 +216,9 @@ func hasCol(t *gen.Table, name string) bool {
 }
 
 func c07Run(c *fw.Case) {
-	kind := c07Floor[c.Idx%17] // the first 17 entries are pipeline kinds
-	if c.Idx >= 3*17 {
-		kind = c07Floor[c.Intn(17)]
+	kind := c07Floor[c.Idx%19] // the first 19 entries are pipeline kinds
+	if c.Idx >= 3*19 {
+		kind = c07Floor[c.Intn(19)]
 	}
 	doc, t, u := c07Doc(c)
 	feats := []string{kind}
@@ -376,6 +376,108 @@ func c07Run(c *fw.Case) {
 			return
 		}
 		compare(composed, fresh(), want, false, map[string]any{"inner": inner, "outer": stagedOuter})
+
+	case "subq.with":
+		// a row-scoped subquery that carries its own WITH: evaluated per row
+		sub := "WITH c AS (SELECT e, f FROM arr) SELECT e FROM c"
+		if c.Chance(0.6) {
+			sub += fmt.Sprintf(" WHERE e %s %d", gen.Pick(c.R, []string{">", "<", ">=", "!="}), c.Intn(6))
+		}
+		if c.Chance(0.3) {
+			sub = "WITH c AS (SELECT e FROM arr WHERE e >= 1), d AS (SELECT COUNT(*) AS n FROM c) SELECT n FROM d"
+		}
+		composed := "SELECT rid, (" + sub + ") AS sub FROM t1"
+		inForm := c.Chance(0.25)
+		if inForm {
+			composed = "SELECT rid FROM t1 WHERE n1 IN (WITH c AS (SELECT e FROM arr) SELECT e FROM c)"
+			sub = "WITH c AS (SELECT e FROM arr) SELECT e FROM c"
+		}
+		o := Run(fresh(), composed)
+		c.Evals(1)
+		c.Sample(map[string]any{"composed": composed})
+		det := map[string]any{"sql": composed, "doc": doc, "observed": o.Describe()}
+		if !o.OK() {
+			c.Violate("error", fmt.Sprintf("subquery with its own WITH failed: %v", o.Describe()), det)
+			return
+		}
+		var wantIDs []any
+		distinct := map[string]bool{}
+		for i, row := range t.Rows {
+			so := Run(val.CopyMap(row), sub)
+			c.Evals(1)
+			if !so.OK() {
+				c.Discard("standalone failed")
+				return
+			}
+			distinct[val.Canon(so.Rows)] = true
+			if inForm {
+				for _, r := range so.Rows {
+					if val.Equal(r.(map[string]any)["e"], row["n1"]) {
+						wantIDs = append(wantIDs, row["rid"])
+						break
+					}
+				}
+				continue
+			}
+			got, _ := o.Rows[i].(map[string]any)
+			var ga []any
+			switch x := got["sub"].(type) {
+			case []any:
+				ga = x
+			case nil:
+			default:
+				ga = []any{x}
+			}
+			if !(len(ga) == 0 && len(so.Rows) == 0) && !val.SameSeq(ga, so.Rows) {
+				det["row"] = row
+				det["standalone_result"] = val.Show(so.Rows)
+				c.Violate("subquery-differs", fmt.Sprintf("row %d: subquery with its own WITH contributed %s, standalone on that row returns %s", i, short(val.Canon(got["sub"]), 200), short(val.Canon(so.Rows), 200)), det)
+				return
+			}
+		}
+		if inForm && !val.SameSeq(Rids(o.Rows), wantIDs) {
+			det["expected_rids"] = wantIDs
+			c.Violate("in-subquery", fmt.Sprintf("IN (WITH … subquery) kept rids %v, row-by-row evaluation keeps %v", Rids(o.Rows), wantIDs), det)
+			return
+		}
+		if len(distinct) >= 2 {
+			c.Nontrivial(composed + "|" + val.Canon(doc))
+		}
+
+	case "agg.stages":
+		// the same aggregate text in two stages: the outer one is computed over
+		// the materialised inner result, not taken from the inner stage
+		agg := gen.Pick(c.R, []string{"COUNT(*)", "SUM(n1)", "MAX(n1)", "MIN(n1)"})
+		inner := "SELECT " + agg + " AS n1 FROM t1"
+		if c.Chance(0.5) {
+			inner = "SELECT n1 FROM t1 WHERE n1 >= " + gen.SQLLit(gen.Pick(c.R, append([]any{0.0}, t.Pools["n1"]...)), 0)
+		}
+		if c.Chance(0.3) {
+			inner = "SELECT s1, " + agg + " AS n1 FROM t1 GROUP BY s1"
+		}
+		rows, ok := stage(fresh(), inner)
+		if !ok {
+			return
+		}
+		staged := fresh()
+		staged["c1"] = val.Copy(rows)
+		outer := "SELECT " + agg + " AS v FROM c1"
+		want, ok := stage(staged, outer)
+		if !ok {
+			return
+		}
+		if c.Chance(0.5) {
+			compare("WITH c1 AS ("+inner+") "+outer, fresh(), want, false, map[string]any{"inner": inner, "outer": outer})
+		} else {
+			// derived-table form: the outer aggregate is qualified by the alias on both sides
+			qagg := strings.Replace(agg, "(n1)", "(q.n1)", 1)
+			want, ok = stage(staged, "SELECT "+qagg+" AS v FROM c1 q")
+			if !ok {
+				return
+			}
+			compare("SELECT "+qagg+" AS v FROM ("+inner+") q", fresh(), want, false, map[string]any{"inner": inner, "outer": "SELECT " + qagg + " AS v FROM c1 q"})
+		}
+		c.Nontrivial(inner + outer + val.Canon(doc))
 
 	case "derived.join":
 		// two derived tables joined: must equal the join of the two materialised results
